@@ -829,6 +829,34 @@ def round16_entries():
     return out
 
 
+def round17_entries():
+    """closing the misses of seed round 17"""
+    out = []
+    # enum members printed inside a structured attribute by a hand-written String method: the unwind-table kinds (function header, call site, attribute group)
+    for kind in ("uwtable", "uwtable(sync)", "uwtable(async)"):
+        out.append(("enumattr.uwtable.%s" % kind, "declare void @d() %s\n\ndefine void @f() %s {\n\tcall void @d() %s\n\tret void\n}\n\ndefine void @g() #0 {\n\tret void\n}\n\nattributes #0 = { %s }\n" % (kind, kind, kind, kind),
+                    ["declare void @d() %s\n" % kind, "define void @f() %s {" % kind, "\tcall void @d() %s\n" % kind, "attributes #0 = { %s }" % kind]))
+    # attributes with an UNSIGNED 64-bit operand at 2^63 and 2^64 - 1 (a signed print gives a minus sign): parameter, return value, call site, function header, group
+    for n in (9223372036854775807, 9223372036854775808, 18446744073709551615):
+        for attr in ("dereferenceable(%d)" % n, "dereferenceable_or_null(%d)" % n):
+            text = ("declare %s i8* @d(i8* %s %%0)\n\ndefine void @f(i8* %%p) {\n\t%%r = call %s i8* @d(i8* %s %%p)\n\tret void\n}\n" % (attr, attr, attr, attr))
+            out.append(("uint64-attr.%s" % attr, text, ["declare %s i8* @d(i8* %s %%0)" % (attr, attr), "%%r = call %s i8* @d(i8* %s %%p)" % (attr, attr)]))
+        out.append(("uint64-attr.alignstack.%d" % n, "define void @f() alignstack(%d) {\n\tret void\n}\n" % n, ["define void @f() alignstack(%d) {" % n]))
+    return out
+
+
+def bare_digit_identifiers():
+    """identifiers made of digits at the boundaries of the ID range, written BARE (2^63 - 1 is the largest ID llir reads; from 2^63 on it reads the digits as a NAME; LLVM
+    reads every bare digit identifier as an ID, so these are no LLVM inputs: C02 only — whatever the parser accepts is printed as a one-step fixpoint)"""
+    out = []
+    for n in (9223372036854775807, 9223372036854775808, 18446744073709551615, 18446744073709551616):
+        out.append("%%%d = type { i32 }\n\n@g = global %%%d zeroinitializer\n" % (n, n))
+        out.append("define i32 @f(i32 %%%d) {\n%d:\n\tret i32 %%%d\n}\n" % (n, n + 1, n))
+        out.append("@%d = global i32 0\n@p = global i32* @%d\n" % (n, n))
+        out.append("$%d = comdat any\n\n@g = global i32 0, comdat($%d)\n" % (n, n))
+    return out
+
+
 def layout_entries():
     """a value USED in a block that is written BEFORE the block that defines it (legal: the definition dominates through the CFG): the parser types forward
     references from the scaffold it builds in a first pass, so a constant next to such an operand is built at the scaffold's type"""
@@ -936,4 +964,4 @@ def layout_entries():
 
 
 def all_entries(rows):
-    return kw_entries(rows) + STRUCTURED + NAMED_NONSTRUCT + inst_entries() + DI + MISC + comdat_entries() + flag_cross_entries() + addrspace_cross_entries() + written_type_entries() + REPEATS + UINT_LITS + order_entries() + DI_REFS + clausegen.all_entries() + layout_entries() + round13_entries() + round14_entries() + round15_entries() + round16_entries()
+    return kw_entries(rows) + STRUCTURED + NAMED_NONSTRUCT + inst_entries() + DI + MISC + comdat_entries() + flag_cross_entries() + addrspace_cross_entries() + written_type_entries() + REPEATS + UINT_LITS + order_entries() + DI_REFS + clausegen.all_entries() + layout_entries() + round13_entries() + round14_entries() + round15_entries() + round16_entries() + round17_entries()
